@@ -121,6 +121,7 @@ enum Product {
     Enc(XEnc, Vec<u8>),
     Pke(XEnc, Vec<u8>, Vec<u8>),
     Header(EncryptedHeader, Vec<u8>, Option<Vec<u8>>),
+    HeaderAd(EncryptedHeader, Vec<u8>, Option<Vec<u8>>),
     Key(UserSecretKey),
     Refreshed,
     Decaps(bool),
@@ -144,6 +145,13 @@ fn run_call(call: &str, cc: &Covercrypt, mpk: &MasterPublicKey, msk: &mut Master
             "header_md" => {
                 let (s, h) = EncryptedHeader::generate(cc, mpk, &ap, Some(b"metadata"), Some(b"aad")).map_err(|e| e.to_string())?;
                 Product::Header(h, s.to_vec(), Some(b"metadata".to_vec()))
+            }
+            // header with one-byte / empty / absent authentication data (value in the call name)
+            x if x.starts_with("header_ad:") => {
+                let v = x[10..].parse::<i64>().unwrap_or(-1);
+                let ad: Option<Vec<u8>> = if v < 0 { None } else if v > 255 { Some(vec![]) } else { Some(vec![v as u8]) };
+                let (s, h) = EncryptedHeader::generate(cc, mpk, &ap, Some(b"metadata"), ad.as_deref()).map_err(|e| e.to_string())?;
+                Product::HeaderAd(h, s.to_vec(), ad)
             }
             "header" => {
                 let (s, h) = EncryptedHeader::generate(cc, mpk, &ap, None, None).map_err(|e| e.to_string())?;
@@ -250,7 +258,7 @@ fn execute(b: &Base, programs: &[Vec<String>], schedule: Vec<u64>, forced: bool)
                     ok &= b.cc.decaps(k, &b.enc.0).is_ok();
                     fps.push(k.verif_view()["id"].as_str().unwrap_or("").to_string());
                 }
-                Product::Refreshed => {}
+                Product::Refreshed | Product::HeaderAd(..) => {}
                 Product::Decaps(same) => ok &= *same,
                 Product::Failed(e) => {
                     ok = false;
@@ -390,7 +398,7 @@ pub fn fresh(args: &[String]) -> Result<(), String> {
                                     }
                                 }
                             }
-                            Product::Decaps(_) => {}
+                            Product::Decaps(_) | Product::HeaderAd(..) => {}
                             Product::Failed(e) => vals.push(("failed".into(), e)),
                         }
                     }
@@ -418,6 +426,33 @@ pub fn fresh(args: &[String]) -> Result<(), String> {
                 writeln!(w, "{rec}").map_err(|e| e.to_string())?;
             }
         }
+    }
+    // C16: the metadata key differs from the returned secret for EVERY authentication data value
+    {
+        let mut msk = MasterSecretKey::deserialize(&b1.msk_bytes).expect("msk");
+        let mut usk = UserSecretKey::deserialize(&b1.usk_bytes).expect("usk");
+        let mut opened = 0u64;
+        let mut total = 0u64;
+        for v in -1i64..=256 {
+            if let Product::HeaderAd(h, s, ad) = run_call(&format!("header_ad:{v}"), &b1.cc, &b1.mpk, &mut msk, &mut usk, &b1.enc) {
+                use cosmian_crypto_core::{Dem, FixedSizeCBytes, Instantiable, Nonce, SymmetricKey};
+                total += 1;
+                if let Some(em) = &h.encrypted_metadata {
+                    let mut k = [0u8; 32];
+                    k.copy_from_slice(&s[..32]);
+                    if let (Ok(key), true) = (SymmetricKey::<32>::try_from_bytes(k), em.len() > 12) {
+                        if let Ok(nonce) = Nonce::try_from_slice(&em[..12]) {
+                            if Aes256Gcm::new(&key).decrypt(&nonce, &em[12..], ad.as_deref()).is_ok() {
+                                opened += 1;
+                            }
+                        }
+                    }
+                }
+            }
+        }
+        let rec = json!({"k": "fresh", "call": "header_ad", "category": "metadata_opened_with_returned_secret_any_aad", "threads": 1,
+                         "instances": 1, "total": total, "distinct": total, "expected": total, "opened": opened});
+        writeln!(w, "{rec}").map_err(|e| e.to_string())?;
     }
     w.flush().map_err(|e| e.to_string())?;
     Ok(())
